@@ -19,7 +19,7 @@ import os
 import re
 
 from vlib import gen, wsharness as wh
-from vlib.common import exc_site, fp
+from vlib.common import exc_site, fp, retry_on_timeout
 
 LEVEL = "exploration"
 SHARD_TIMEOUT = {"quick": 280, "thorough": 1700}
@@ -51,20 +51,29 @@ def scheme_config(scheme, rng):
 def json_database(rng, scheme, cfg):
     """A JSON database (utf-8 keywords, hex identifiers) valid for the configuration, incl. leading-zero identifiers."""
     isz = cfg.get("param_identifier_size", 8)
+    cp = gen.caps(scheme, cfg)
     kws = ["China", "Github", "中文关键字", "é-accent", "k"][:rng.randint(2, 5)]
     limit = cfg.get("param_l", 40) if scheme in ("CGKO06.SSE1", "CGKO06.SSE2") else 40
     kws = [k for k in kws if len(k.encode("utf8")) <= limit]
     pool = []
-    while len(pool) < 10:
+    space = 256 ** isz - 1
+    while len(pool) < min(10, space):
         b = gen.gen_id(rng, isz, zero_rich=rng.random() < 0.5)
         if rng.random() < 0.3 and isz > 1:
             b = b"\x00" + b[1:] if any(b[1:]) else b
         if b not in pool and any(b):
             pool.append(b)
     db = {}
+    budget = min(cp["max_total"], 24)
     for k in kws:
-        n = rng.randint(1, 6)
+        n = min(rng.randint(1, 6), cp["max_list"], len(pool), budget)
+        if n < 1:
+            break
+        budget -= n
         db[k] = [x.hex() for x in rng.sample(pool, n)]
+    if scheme == "CJJ14.Pi2Lev":
+        while gen.pi2lev_A_len(cfg, [len(v) for v in db.values()]) > cp["max_A_len"] and len(db) > 1:
+            db.pop(next(iter(db)))
     if scheme == "CGKO06.SSE2":
         cfg["param_n"] = len({h for v in db.values() for h in v}) + rng.choice([0, 2])
     return db
@@ -169,6 +178,10 @@ async def run_flow(env, server, acc, scheme, cid, cfg, db_json, recreate_mask, r
             except Exception as e:
                 viol(f"step-raised:{name}:{exc_site(e)}", f"workflow step {name} raised {type(e).__name__}: {e}")
                 return
+            if r[0] == "timeout":
+                acc.count("timeouts")
+                acc.note(f"{scheme}: step {name} neither completed nor failed within 10 s")
+                return
             if r[0] != "ok":
                 viol(f"step-failed:{name}:{r[0]}", f"workflow step {name} did not complete: {r[0]} {r[1]!r:.80}")
                 return
@@ -227,7 +240,8 @@ async def flows(spec, acc, ctx):
                     acc.count("enumeration_incomplete")
                     await server.stop()
                     return
-                await run_flow(env, server, acc, scheme, cid, copy.deepcopy(cfg), db_json, list(mask), restart_at, rng)
+                await retry_on_timeout(acc, lambda: run_flow(env, server, acc, scheme, cid, copy.deepcopy(cfg), db_json,
+                                                             list(mask), restart_at, rng))
                 n += 1
                 if n == 1:
                     acc.sample({"scheme": scheme, "cfg_id": cid, "db_json": db_json, "recreate_mask": list(mask),
@@ -280,7 +294,7 @@ async def commands_layer(spec, acc, ctx):
             if "error" in text.lower():
                 viol("step-error", f"a workflow step printed an error: {text[-200:]!r}")
                 continue
-            for kw in list(db_json)[:3] + ["not-there"]:
+            for kw in list(db_json)[:3] + ["nope"]:
                 o2 = io.StringIO()
                 with contextlib.redirect_stdout(o2):
                     await asyncio.wait_for(cmds.search(kw, fmt, sname=sname), 15)
